@@ -46,6 +46,10 @@ func init() {
 				bs = append(bs, core.Batch{Name: fmt.Sprintf("service-events-%d", s), TimeoutS: 600,
 					Params: core.Params(c04Params{Kind: "service-events", Shard: s, N: tierPick(tier, 4000, 30000)})})
 			}
+			for i := 0; i < 4; i++ {
+				bs = append(bs, core.Batch{Name: fmt.Sprintf("store-handler-%d", i), TimeoutS: 600,
+					Params: core.Params(c04Params{Kind: "store-handler", Shard: i, N: tierPick(tier, 300, 3000)})})
+			}
 			return bs
 		},
 		MinEvaluations: func(t core.Tier) int64 { return 3000 },
@@ -54,6 +58,10 @@ func init() {
 			json.Unmarshal(b.Params, &p)
 			if p.Kind == "service-events" {
 				c07ServiceEvents(c, p)
+				return
+			}
+			if p.Kind == "store-handler" {
+				c07StoreHandler(c, p)
 				return
 			}
 			c04Run(c, b)
@@ -68,6 +76,69 @@ func init() {
 			}
 		},
 	})
+}
+
+// c07StoreHandler: events that store.Handler builds itself from stored values (all
+// valid RES values: primitives, references, data values wrapping objects and arrays)
+// must have the documented shape, including RES values in change and add events.
+func c07StoreHandler(c *core.Ctx, p c04Params) {
+	rigInstall()
+	defer closeSharedBadger()
+	cfg := []c10Cfg{{Type: "model", Trans: "none", Store: "mock"}, {Type: "collection", Trans: "id", Store: "mock"}, {Type: "model", Trans: "id-proj", Default: true, Store: "mock"}, {Type: "collection", Trans: "none", Store: "badger"}}[p.Shard%4]
+	env, err := newC10Env(c, cfg)
+	if err != nil {
+		c.Inconclusive("env: " + err.Error())
+		return
+	}
+	defer env.rig.stop()
+	r := c.Rand
+	pos := 0
+	for i := 0; i < p.N; i++ {
+		before := c10RandValue(r, cfg, true)
+		after := c10RandValue(r, cfg, true)
+		if r.Intn(3) == 0 {
+			after = c10Perturb(r, before, cfg)
+		}
+		// the coherence oracle is C10's business here: only the messages are judged
+		c.SuppressFunctional = true
+		ok := env.oneCase(fmt.Sprintf("x%d", r.Intn(3)), before, after, "c07")
+		c.SuppressFunctional = false
+		if !ok {
+			return
+		}
+		log := env.rig.C.Since(pos)
+		pos += len(log)
+		for _, m := range log {
+			kind, probs := ref.ValidateMessage(m.Subject, m.Data, ref.MsgCtx{Inboxes: func(s string) (bool, bool) { return false, strings.HasPrefix(s, "_INBOX.") }})
+			c.SetAdd("message_kinds", kind)
+			if strings.HasPrefix(m.Subject, "event.") {
+				ev := m.Subject[strings.LastIndexByte(m.Subject, '.')+1:]
+				probs = append(probs, ref.ValidateEventValues(ev, m.Data)...)
+				c.Obs("store_handler_events_validated", 1)
+			}
+			for _, pr := range probs {
+				c.Violation("C07/store-handler:"+kind+":"+c07ProbClass(pr), fmt.Sprintf("store.Handler published %s %s: %s", m.Subject, short(m.Payload, 200), pr),
+					map[string]interface{}{"config": cfg, "subject": m.Subject, "payload": m.Payload, "before": before, "after": after})
+			}
+		}
+		if canon(before) != canon(after) {
+			c.Distinct(fmt.Sprintf("store/%d/%s>%s", p.Shard, canon(before), canon(after)))
+		}
+	}
+	c.Sample(map[string]interface{}{"scenario": "events generated by store.Handler", "config": cfg, "mutations": p.N})
+}
+
+// c07ProbClass turns a validator message into a signature part without payload details.
+func c07ProbClass(pr string) string {
+	if i := strings.Index(pr, ":"); i > 0 {
+		pr = pr[:i]
+	}
+	if i := strings.IndexByte(pr, '"'); i > 0 {
+		if j := strings.LastIndexByte(pr, '"'); j > i {
+			pr = pr[:i] + "<key>" + pr[j+1:]
+		}
+	}
+	return short(pr, 60)
 }
 
 // c07ServiceEvents drives service-level publishing APIs with hostile values.
